@@ -171,6 +171,12 @@ class Builder:
             seen.add(v)
             out.append([nme, v])
         e = {"name": name, "values": out}
+        if self.p.get("p_enum_alias") and len(out) >= 2 and self.coin("p_enum_alias"):
+            # option allow_alias: further names for numbers already in use
+            e["allow_alias"] = True
+            for j in range(self.d(st.integers(1, 2))):
+                nme, v = out[self.d(st.integers(0, len(out) - 1))]
+                e["values"].append([f"{prefix}_ALIAS{j}", v])
         c = self.comment()
         if c:
             e["comment"] = c
@@ -195,6 +201,15 @@ class Builder:
         return m
 
     def field_name(self, used, fileidx=0):
+        if self.p.get("p_module_named_field") and self.coin("p_module_named_field"):
+            # a field named like a module the types file imports: `proto` itself or a sibling proto file of the API
+            base = self.d(st.sampled_from(["proto", "proto", "lib", "types", "resources", "service", "common", "admin"]))
+            n, i = base, 1
+            while n in used:
+                i += 1
+                n = f"{base}_{i}"
+            used.add(n)
+            return n
         if self.coin("p_reserved_field"):
             base = self.d(st.sampled_from(RESERVED_LOWER))
             if fileidx == -1 and keyword.iskeyword(base):
@@ -775,6 +790,8 @@ class Builder:
             pair = self.d(st.sampled_from([("book_types", "book.types"), ("book.types", "book_types"), ("book_types", "book-types"),
                                            ("a.b", "a_b"), ("x-y", "x.y")]))
             forced = {nfiles - 2: pair[0], nfiles - 1: pair[1]}
+            for b in pair:                      # no other file of the request may take one of the two names
+                fnames.used.add(b.lower())
         for fi in range(nfiles):
             # unversioned packages with sub-packages are a documented input error of the generator
             sub = fi < nfiles - 1 and self.versioned and self.coin("p_subpackage") and fi not in forced   # the last file stays in the root package
